@@ -2706,6 +2706,66 @@ pub(crate) mod verif {
 		let ret = path.update_value_and_recompute_fees(value_msat);
 		(path.hops.iter().map(|h| h.0.fee_msat).collect(), ret)
 	}
+
+	/// [`PaymentPath::max_final_value_msat`] run on a synthetic path whose hops are private-hop
+	/// candidates `(base_msat, proportional_millionths, htlc_maximum_msat, used_liquidity_msat)`
+	/// (payer side first; hop `i` has short channel id `i`, so every hop has its own liquidity entry).
+	pub(crate) fn max_final_value_msat(
+		hops: &[(u32, u32, Option<u64>, u64)], channel_saturation_pow_half: u8,
+	) -> Result<(usize, u64), usize> {
+		let pk = PublicKey::from_slice(&[2; 33]).unwrap();
+		let node_id = NodeId::from_pubkey(&pk);
+		let hints: Vec<RouteHintHop> = hops
+			.iter()
+			.enumerate()
+			.map(|(i, (base_msat, proportional_millionths, htlc_maximum_msat, _))| RouteHintHop {
+				src_node_id: pk,
+				short_channel_id: i as u64,
+				fees: RoutingFees {
+					base_msat: *base_msat,
+					proportional_millionths: *proportional_millionths,
+				},
+				cltv_expiry_delta: 0,
+				htlc_minimum_msat: None,
+				htlc_maximum_msat: *htlc_maximum_msat,
+			})
+			.collect();
+		let mut used_liquidities: HashMap<CandidateHopId, u64> = new_hash_map();
+		let path = PaymentPath {
+			hops: hints
+				.iter()
+				.zip(hops.iter())
+				.map(|(hint, (_, _, _, used))| {
+					let candidate = CandidateRouteHop::PrivateHop(PrivateHopCandidate {
+						hint,
+						target_node_id: &node_id,
+						source_node_counter: 0,
+						target_node_counter: 0,
+					});
+					if *used != 0 {
+						used_liquidities.insert(candidate.id(), *used);
+					}
+					let hop = PathBuildingHop {
+						candidate,
+						was_processed: false,
+						#[cfg(all(not(ldk_bench), any(test, fuzzing)))]
+						best_path_from_hop_selected: false,
+						is_first_hop_target: false,
+						is_last_hop_target: false,
+						total_fee_msat: 0,
+						path_htlc_minimum_msat: 0,
+						path_penalty_msat: 0,
+						fee_msat: 0,
+						next_hops_fee_msat: 0,
+						hop_use_fee_msat: 0,
+						value_contribution_msat: 0,
+					};
+					(hop, NodeFeatures::empty())
+				})
+				.collect(),
+		};
+		path.max_final_value_msat(&used_liquidities, channel_saturation_pow_half)
+	}
 }
 
 /// The default `features` we assume for a node in a route, when no `features` are known about that
